@@ -161,6 +161,15 @@ func c07CheckOutput(out []byte, nonGlob bool, follow bool) *c07Check {
 }
 
 func c07(r *vlib.Run) int {
+	min := c07Body(r)
+	if r.Tier == "thorough" || os.Getenv("VERIF_FORCE_RACE") != "" {
+		// secondary monitor: the same workload (reduced) against -race builds
+		r.RacePass([]string{"loggers.(*stdout)", "loggers.(*fout)", "clients/handlers.(*baseHandler)", "dlog.(*DLog)", "pool.", "line."}, func() { c07Body(r) })
+	}
+	return min
+}
+
+func c07Body(r *vlib.Run) int {
 	r.Rule("dcat/dgrep (REMOTE records, --noColor) against 2-8 servers x 1-5 files each (comma list and glob), files of unequal size, lines " +
 		"'<host>#<file>#<seq>#<len>#<pad>#<crc>' of length 40-200, 4095/4096, 32760-32780 and 100 000, paced stdout; plus dtail following " +
 		"several files per server which receive bursts while the client reads slowly (lines may be dropped there, never damaged). Oracle " +
